@@ -88,6 +88,8 @@ pub struct WOutcome {
     pub results: Vec<String>,
     pub overlap: Option<String>,
     pub finish: Option<String>,
+    /// after a failed write: what one more send_data (+ poll_ready) answered
+    pub retry: Option<String>,
     pub finished_at_quinn: bool,
     pub resets_at_quinn: Vec<u64>,
     pub send_ids: Vec<u64>,
@@ -231,7 +233,32 @@ pub fn w_execute(case: &WCase, explore: bool) -> WOutcome {
                 Poll::Pending => o.finish = Some("pending".into()),
             }
         } else {
-            // a failed write: the application resets the stream
+            // a failed write: the application tries once more (e.g. h3's finish() writes a grease frame), ...
+            if !case.unframed && o.overlap.is_none() {
+                set_op("send_data");
+                o.retry = Some(match with!(x, x.send_data(Frame::Data(Bytes::from_static(b"RETRY")))) {
+                    Err(e) => format!("send_data:{}", stream_class(&e)),
+                    Ok(()) => {
+                        let mut res = "pending".to_string();
+                        for _ in 0..8 {
+                            set_op("poll_ready");
+                            match cx_run(|cx| with!(x, x.poll_ready(cx))) {
+                                Poll::Ready(Ok(())) => {
+                                    res = "ok".into();
+                                    break;
+                                }
+                                Poll::Ready(Err(e)) => {
+                                    res = stream_class(&e);
+                                    break;
+                                }
+                                Poll::Pending => {}
+                            }
+                        }
+                        res
+                    }
+                });
+            }
+            // ... then resets the stream
             set_op("reset");
             with!(x, x.reset(0x10c));
         }
@@ -318,6 +345,15 @@ pub fn w_judge(case: &WCase, o: &WOutcome) -> Vec<(String, String)> {
             if o.finished_at_quinn || o.resets_at_quinn != vec![0x10c] {
                 out.push(("C17:write:reset-code-not-passed-on".into(), format!("{ctx}: reset(0x10c) after the failed write; Quinn saw finish={} resets={:x?}", o.finished_at_quinn, o.resets_at_quinn)));
             }
+        }
+    }
+    // the condition that ended the write keeps surfacing as the same class on a further write; in particular a
+    // stream-scoped condition (the peer's STOP_SENDING) never turns into a connection-level error
+    if let (Some(r), Some((_, kind, code))) = (&o.retry, case.fault) {
+        let want = expect_write_error(kind, code);
+        let got = r.trim_start_matches("send_data:");
+        if got != want {
+            out.push((format!("C17:write:error-class-changes-on-next-write:{kind}:got={got}"), format!("{ctx}: the write failed with {want}; one more send_data/poll_ready answered {r}")));
         }
     }
     if let Some(ov) = &o.overlap {
@@ -704,7 +740,7 @@ fn run(tier: Tier, seed: u64) -> i32 {
     let _ = &mut rep;
     rep.exhaustive = true;
     rep.rule = format!(
-        "the unmodified adapter source over the fakequinn stand-in. write path: frame sequences with payloads from {{0, 1, 5 bytes}} up to 3 frames, one 256 KiB frame, framed (send_data/poll_ready) and unframed (poll_send), on uni and bidi streams, an overlapping send_data inserted after every send_data, and one write fault of {{Stopped(c), ConnectionLost(ApplicationClosed(c)), ConnectionLost(TimedOut), ConnectionLost(Reset), ClosedStream, ZeroRttRejected}} from the k-th poll_write on (k = 0..4, c in {{0, 0x10c, 2^62-1}}), under EVERY poll_write answer sequence with <= {bound} deviations (accept 1 / half / n-1 bytes, Pending). read path: data of {{0, 1, 5, 40}} bytes x ending {{FIN, Reset(c), ConnectionLost(ApplicationClosed(c)), ConnectionLost(TimedOut), ConnectionLost(Reset), ClosedStream, open}} under every read_chunk answer sequence with <= {bound} deviations (chunk cuts, Pending), uni and bidi, with every operation sequence of length <= 3 over {{poll_data, recv_id, stop_sending(c)}} before the drain (identifier queries and stop_sending in every state: fresh, read pending, read completed, after FIN, after an error). Connection-level: all 8 ConnectionError variants x 3 codes on accept/open (connection and opener) and both datagram paths; close(code, reason); datagram bytes. Oracle: bytes seen by the stand-in = reference encoding of the buffers whose write completed (a prefix on error), ids constant, no panic, error classes and codes preserved. states = distinct (case, answer sequence) outcomes; non-trivial = executions with a deviation."
+        "the unmodified adapter source over the fakequinn stand-in. write path: frame sequences with payloads from {{0, 1, 5 bytes}} up to 3 frames, one 256 KiB frame, framed (send_data/poll_ready) and unframed (poll_send), on uni and bidi streams, an overlapping send_data inserted after every send_data, and one write fault of {{Stopped(c), ConnectionLost(ApplicationClosed(c)), ConnectionLost(TimedOut), ConnectionLost(Reset), ClosedStream, ZeroRttRejected}} from the k-th poll_write on (k = 0..4, c in {{0, 0x10c, 2^62-1}}), under EVERY poll_write answer sequence with <= {bound} deviations (accept 1 / half / n-1 bytes, Pending). read path: data of {{0, 1, 5, 40}} bytes x ending {{FIN, Reset(c), ConnectionLost(ApplicationClosed(c)), ConnectionLost(TimedOut), ConnectionLost(Reset), ClosedStream, open}} under every read_chunk answer sequence with <= {bound} deviations (chunk cuts, Pending), uni and bidi, with every operation sequence of length <= 3 over {{poll_data, recv_id, stop_sending(c)}} before the drain (identifier queries and stop_sending in every state: fresh, read pending, read completed, after FIN, after an error). Connection-level: all 8 ConnectionError variants x 3 codes on accept/open (connection and opener) and both datagram paths; close(code, reason); datagram bytes. After a failed write one more send_data/poll_ready is issued, then reset(code); after a complete write poll_finish. Oracle: bytes seen by the stand-in = reference encoding of the buffers whose write completed (a prefix on error), ids constant, no panic, error classes and codes preserved - also on the write after the failed one (a stream-scoped STOP_SENDING never becomes a connection-level error). states = distinct (case, answer sequence) outcomes; non-trivial = executions with a deviation."
     );
     rep.assumptions = vec![
         "fakequinn models the quinn 0.11 API subset the adapter uses; its answer alphabet is bound to real Quinn by the quinnreal conformance runs (accepted sizes and error variants observed on loopback lie inside the alphabet)".into(),
